@@ -301,12 +301,18 @@ char* Arena::sformat(const char* fmt, ...) noexcept {
   }
 
   char buf[512];
-  size_t size;
   va_list ap;
 
   va_start(ap, fmt);
-  size = unsigned(vsnprintf(buf, ASMJIT_ARRAY_SIZE(buf) - 1, fmt, ap));
+  int result = vsnprintf(buf, ASMJIT_ARRAY_SIZE(buf), fmt, ap);
   va_end(ap);
+
+  if (ASMJIT_UNLIKELY(result < 0)) {
+    return nullptr;
+  }
+
+  // `vsnprintf()` returns the length the whole output would have - the output that doesn't fit is truncated.
+  size_t size = Support::min<size_t>(size_t(result), ASMJIT_ARRAY_SIZE(buf) - 1);
 
   buf[size++] = 0;
   return static_cast<char*>(dup(buf, size));
